@@ -33,9 +33,15 @@ ERRS = {'visited': '.visited', 'crate_': '.crate_', 'none': '.none', 'empty': '.
         'zeroize': '.zeroize', 'deprecated_zeroize_drop': '.deprecatedZeroizeDrop'}
 
 
+# optional groups: extracted independently; a group the source no longer has in the recognised shape claims nothing
+PATH_THEOREMS = ['traitPath_eq', 'supportsUnion_eq']
+
 THEOREMS = ['groupTraits_eq', 'groups_complete', 'traits_complete', 'ints_complete', 'traitSupported_eq', 'traitOfName_eq',
             'traitOfName_complete', 'traitOfName_asStr', 'groupOfName_eq', 'groupOfName_complete', 'reprOfName_eq',
             'reprOfName_complete', 'reprToken_eq', 'reprToken_roundtrip']
+
+
+LAST_NAMES = list(THEOREMS)
 
 
 class Missing(Exception):
@@ -120,6 +126,33 @@ def extract(repo):
             raise Missing('Error::%s has no literal message' % name)
         msgs[name] = rust_str(m.group(1))
     out['messages'] = msgs
+    # DeriveTrait::path / DeriveTrait::crate_ (src/attr/item.rs) and TraitImpl::supports_union (src/trait_/*.rs): optional
+    try:
+        asrc = open(os.path.join(repo, 'src/attr/item.rs')).read()
+        b = body_of(body_of(asrc, 'pub fn path(&self) -> Path'), 'match self')
+        paths = {}
+        for name, segs in re.findall(r'(\w+)(?:\s*\{\s*\.\.\s*\})?\s*=>\s*util::path_from_root_and_strs\(\s*self\.crate_\(\),\s*&\[([^\]]*)\]\s*,?\s*\)', b):
+            paths[name] = re.findall(r'"(\w+)"', segs)
+        b = body_of(body_of(asrc, 'pub fn crate_(&self) -> Path'), 'match self')
+        roots = {}
+        for name, rhs in re.findall(r'(\w+)(?:\s*\{[^}]*\})?\s*=>\s*(util::path_from_strs\(&\[[^\]]*\]\)|\{(?:[^{}]|\{[^{}]*\})*\})', b):
+            m = re.findall(r'util::path_from_strs\(&\["(\w+)"\]\)', rhs)
+            if len(m) == 1:
+                roots[name] = m[0]
+        unions = {}
+        for rs, name in (('clone', 'Clone'), ('copy', 'Copy'), ('debug', 'Debug'), ('default', 'Default'), ('eq', 'Eq'),
+                         ('hash', 'Hash'), ('ord', 'Ord'), ('partial_eq', 'PartialEq'), ('partial_ord', 'PartialOrd'),
+                         ('zeroize', 'Zeroize'), ('zeroize_on_drop', 'ZeroizeOnDrop')):
+            tf = open(os.path.join(repo, 'src/trait_/%s.rs' % rs)).read()
+            m = re.search(r'fn supports_union\(&self\)\s*->\s*bool\s*\{\s*(true|false)\s*\}', tf)
+            unions[name] = m.group(1) if m else 'false'          # the trait's default is `false`
+        dflt = re.search(r'fn supports_union\(&self\)\s*->\s*bool\s*\{\s*(true|false)\s*\}', body_of(tsrc, 'pub trait TraitImpl'))
+        if set(paths) != set(TRAITS) or set(roots) != set(TRAITS) or not dflt or dflt.group(1) != 'false':
+            raise Missing('DeriveTrait::path / crate_ / supports_union')
+        out['paths'], out['roots'], out['unions'] = paths, roots, unions
+    except (Missing, OSError, ValueError) as e:
+        out['paths'] = None
+        out['paths_reason'] = repr(e)
     return out
 
 
@@ -162,7 +195,21 @@ def lean_file(t):
           'theorem reprOfName_complete : (allInts.all fun r => (reprOfName.map (·.2)).contains r) = true := by decide +kernel',
           'theorem reprToken_eq : (allInts.all fun r => reprToken r == r.tok) = true := by decide +kernel',
           'theorem reprToken_roundtrip : (reprOfName.all fun p => reprToken p.2 == p.1) = true := by decide +kernel',
-          'end DW.Extracted', ''] + ['#print axioms DW.Extracted.%s' % n for n in THEOREMS]
+          ]
+    names = list(THEOREMS)
+    if t.get('paths'):
+        L.append('def traitPath : Trait → List String')
+        for tr in TRAITS:
+            L.append('  | .%s => [%s]' % (TRAITS[tr], ', '.join(lean_str(x) for x in [t['roots'][tr]] + t['paths'][tr])))
+        L.append('def unionTable : Trait → Bool')
+        for tr in TRAITS:
+            L.append('  | .%s => %s' % (TRAITS[tr], t['unions'][tr]))
+        L += ['/-- `DeriveTrait::path` with `DeriveTrait::crate_` of the source = the model\'s `DeriveTrait.path` (no `crate` option). -/',
+              'theorem traitPath_eq : (allTraits.all fun t => decide ((DeriveTrait.path ⟨t, none⟩) = ⟨true, (traitPath t).map (⟨·, false⟩), none⟩)) = true := by decide +kernel',
+              '/-- `TraitImpl::supports_union` of the source = the model\'s. -/',
+              'theorem supportsUnion_eq : (allTraits.all fun t => unionTable t == Trait.supportsUnion t) = true := by decide +kernel']
+        names += PATH_THEOREMS
+    L += ['end DW.Extracted', ''] + ['#print axioms DW.Extracted.%s' % n for n in names]
     return '\n'.join(L)
 
 
@@ -183,10 +230,12 @@ def check(prop):
         errs = [l for l in p.stdout.split('\n') if 'error' in l][:3]
         return ['the tables extracted from the source differ from the model\'s (%s): %s' % (os.path.relpath(f, runner.VERIF), ' | '.join(errs)[:600])], 0
     bad = []
-    for n in THEOREMS:
+    global LAST_NAMES
+    LAST_NAMES = list(THEOREMS) + (PATH_THEOREMS if t.get('paths') else [])
+    for n in LAST_NAMES:
         m = re.search(r"'DW\.Extracted\.%s' (does not depend on any axioms|depends on axioms: \[([^\]]*)\])" % n, p.stdout)
         if not m:
             bad.append('table theorem %s not reported by the audit' % n)
         elif m.group(2) and any(a.strip() not in ('propext', 'Classical.choice', 'Quot.sound') for a in m.group(2).split(',')):
             bad.append('table theorem %s depends on %s' % (n, m.group(2)))
-    return bad, len(THEOREMS) - len(bad)
+    return bad, len(LAST_NAMES) - len(bad)
